@@ -166,6 +166,10 @@ class BuiltinMixin:
             return VList([VEnum(v.ci.name, c) for c in consts.values()], ENUM(v.ci.name))
         if isinstance(v, VPy):
             return v
+        if isinstance(v, VElem):
+            return VElemList(self.ctx.sorts.Elem.kids(v.t))       # iterating an Element yields its children
+        if isinstance(v, VElemList):
+            return v
         if isinstance(v, VSet):
             raise OutOfReach('iteration over a set (order unspecified)')
         raise OutOfReach(f'iteration over {v.kind}')
